@@ -100,9 +100,11 @@ def style (evs : List Event) : Option Str :=
 def data (evs : List Event) : Option (List Str) :=
   evs.findSome? fun e => match e.item with | .bibdata names => some names | _ => none
 
-/-- the spelling under which `key` was cited most recently in `before`, if it was cited -/
+/-- the spelling under which `key` was cited most recently in `before`, if it was cited; "the same
+key up to case" is equality of the Unicode lower-case forms (`lowerPy` = Python's `str.lower()` on
+whole strings, `Model/UniCase.lean`) -/
 def lastSpelling (before : List Str) (key : Str) : Option Str :=
-  before.reverse.find? fun k => lower k = lower key
+  before.reverse.find? fun k => lowerPy k = lowerPy key
 
 /-- the keys of one `\citation` line that disagree with the last spelling of the same key -/
 def mismatches (before : List Str) : List Str → List (Str × Str)
@@ -148,5 +150,31 @@ def unlocated (r : Report) : Report := { r with lineno := none, line := none }
 def outcome : Except Abort St → Except Abort St
   | .ok st => .ok { st with reports := st.reports.map unlocated }
   | .error a => .error { a with reports := a.reports.map unlocated }
+
+
+/-! ### an `\@input` file that cannot be opened
+
+Reading stops at the first `\@input` line (in reading order, at any depth) whose file cannot be
+opened: what has been read until then — that `\@input` line included — is `(eventsUntilMissing …).1`,
+the name that could not be opened is `(eventsUntilMissing …).2` (`none`: every file was there). -/
+
+def lineEventsM (sub : Path → List Event × Option Path) (p : Path) :
+    List Str → Nat → List Event × Option Path
+  | [], _ => ([], none)
+  | l :: ls, n =>
+    let e : Event := ⟨p, n, strip l, classify l⟩
+    match classify l with
+    | .input q =>
+      match sub q with
+      | (evs, some m) => (e :: evs, some m)
+      | (evs, none) => (e :: (evs ++ (lineEventsM sub p ls (n + 1)).1), (lineEventsM sub p ls (n + 1)).2)
+    | _ => (e :: (lineEventsM sub p ls (n + 1)).1, (lineEventsM sub p ls (n + 1)).2)
+
+def eventsUntilMissing (fs : FS) : Nat → Path → List Event × Option Path
+  | 0, _ => ([], none)
+  | d + 1, p =>
+    match fs p with
+    | none => ([], some p)
+    | some lines => lineEventsM (eventsUntilMissing fs d) p lines 1
 
 end Pybtex.Aux.Spec
